@@ -20,6 +20,8 @@ import os
 import signal
 import subprocess
 import sys
+import threading
+import time
 from pathlib import Path
 
 import vlib
@@ -327,38 +329,76 @@ def random_scenario(rng, k):
     return s
 
 
-def watchdog_for(s):
-    return 240 + 10 * max(0, s["search_time"])
+class RealRunner:
+    """Runs scenarios, each in a session (process group) of its own, under a watchdog.
 
+    A scenario that has not returned after `soft` seconds is only noted as late (loaded machine); one that
+    has not returned after `hard` seconds is a hang: its process group is killed, the hang is reported and
+    ALL other scenarios are aborted (killed / not started) — a hang is the violation, there is no point in
+    waiting for it a dozen times.  No process group survives kill_all()."""
 
-def run_real(s, base: Path, attempt=0):
-    """Run one scenario in its own session under a watchdog.  Returns (log | None, note)."""
-    d = base / f"{s['name']}-{attempt}"
-    d.mkdir(parents=True, exist_ok=True)
-    sc = {k: v for k, v in s.items() if k != "name"}
-    sc["dir"] = str(d)
-    env = vlib.impl_env()
-    wd = watchdog_for(s) * (1 + attempt)
-    p = subprocess.Popen([sys.executable, str(Path(__file__).with_name("_c33_driver.py")), json.dumps(sc)],
-                         stdout=subprocess.PIPE, stderr=subprocess.PIPE, text=True, env=env, start_new_session=True)
-    try:
-        out, err = p.communicate(timeout=wd)
-    except subprocess.TimeoutExpired:
+    def __init__(self, base: Path, soft: float, hard_of):
+        self.base, self.soft, self.hard_of = base, soft, hard_of
+        self.abort = threading.Event()
+        self.lock = threading.Lock()
+        self.live: set[int] = set()
+
+    @staticmethod
+    def _killpg(pid):
         try:
-            os.killpg(p.pid, signal.SIGKILL)
-        except ProcessLookupError:
-            pass
-        p.communicate()
-        return None, f"no return within {wd} s"
-    finally:
-        try:
-            os.killpg(p.pid, signal.SIGKILL)      # orphaned workers / execution subprocesses
+            os.killpg(pid, signal.SIGKILL)
         except (ProcessLookupError, PermissionError):
             pass
-    for ln in out.splitlines():
-        if ln.startswith("RESULT "):
-            return json.loads(ln[7:]), ""
-    return None, "driver-crash: " + (err or out)[-1500:]
+
+    def kill_all(self):
+        with self.lock:
+            pids = list(self.live)
+        for pid in pids:
+            self._killpg(pid)
+
+    def run(self, s):
+        """Returns (log | None, note); note is '', 'late ...', 'skipped', 'no return within N s' or 'driver-crash: ...'."""
+        if self.abort.is_set():
+            return None, "skipped"
+        d = self.base / s["name"]
+        d.mkdir(parents=True, exist_ok=True)
+        sc = {k: v for k, v in s.items() if k != "name"}
+        sc["dir"] = str(d)
+        hard = self.hard_of(s)
+        sc["deadline"] = hard + 30          # the driver kills its own process group should the harness die
+        with open(d / "stdout.txt", "w") as fo, open(d / "stderr.txt", "w") as fe:
+            p = subprocess.Popen([sys.executable, str(Path(__file__).with_name("_c33_driver.py")), json.dumps(sc)],
+                                 stdout=fo, stderr=fe, env=vlib.impl_env(), start_new_session=True)
+        with self.lock:
+            self.live.add(p.pid)
+        t0 = time.monotonic()
+        note = ""
+        try:
+            while p.poll() is None:
+                el = time.monotonic() - t0
+                if self.abort.is_set():
+                    return None, "skipped"
+                if el > hard:
+                    self.abort.set()
+                    return None, f"no return within {int(hard)} s"
+                time.sleep(0.25)
+            el = time.monotonic() - t0
+            if el > self.soft:
+                note = f"late ({int(el)} s)"
+        finally:
+            self._killpg(p.pid)          # the driver, orphaned workers, execution subprocesses
+            with self.lock:
+                self.live.discard(p.pid)
+        out = (d / "stdout.txt").read_text()
+        for ln in out.splitlines():
+            if ln.startswith("RESULT "):
+                return json.loads(ln[7:]), note
+        return None, "driver-crash: " + ((d / "stderr.txt").read_text() or out)[-1500:]
+
+
+def run_real(s, base: Path, hard=1200):
+    """One scenario on its own (replay)."""
+    return RealRunner(base, 120, lambda _s: hard).run(s)
 
 
 def real_to_case(s, log):
@@ -439,8 +479,21 @@ def run(ctx: vlib.Ctx):
     if os.environ.get("VERIF_C33_REAL") == "0":      # developer knob for the sensitivity self-test only
         scen = []
         ctx.notes.append("real runs skipped (VERIF_C33_REAL=0)")
-    pool = cf.ThreadPoolExecutor(max_workers=10 if ctx.quick else 12)
-    futs = {s["name"]: pool.submit(run_real, s, base) for s in scen}
+    # quick: a run is a hang after 360 s (healthy runs take 2..100 s, depending on machine load; "late" after
+    # 120 s is only logged); thorough: 900 s + 10 s per second of search time
+    runner = RealRunner(base, 120, (lambda _s: 360) if ctx.quick else (lambda x: 900 + 10 * max(0, x["search_time"])))
+    pool = cf.ThreadPoolExecutor(max_workers=12)
+    futs = {s["name"]: pool.submit(runner.run, s) for s in scen}
+    try:
+        _run_rest(ctx, corpus, scen, futs, has_hook)
+    finally:
+        runner.abort.set()
+        runner.kill_all()
+        pool.shutdown(wait=True)
+        runner.kill_all()
+
+
+def _run_rest(ctx, corpus, scen, futs, has_hook):
 
     # --- K2 scripted ------------------------------------------------------------------------------
     scripts = [(c["time"], c["sub"], c["umw"], [tuple(o) for o in c["outcomes"]]) for c in corpus["scripts"]]
@@ -477,18 +530,21 @@ def run(ctx: vlib.Ctx):
         ctx.leg("K2", ok=True, histories=len(cases))
 
     # --- real runs: collect, oracle, trace refinement ---------------------------------------------
-    real_cases, real_meta, n_real_fail = [], [], 0
+    real_cases, real_meta, n_real_fail, n_skipped = [], [], 0, 0
     for s in scen:
         log, note = futs[s["name"]].result()
+        if log is None and note == "skipped":
+            n_skipped += 1
+            continue
         if log is None and note.startswith("no return"):
-            ctx.log(f"scenario {s['name']}: {note}; retrying once with a longer watchdog")
-            log, note2 = run_real(s, base, attempt=1)
-            if log is None and note2.startswith("no return"):
-                n_real_fail += 1
-                ph = (s.get("crash") or ("sut:" + s["sut"])).split(":")[0]
-                ctx.fail(f"hang:{ph}", f"master/worker run did not return ({note}; {note2})", {"kind": "real", "scenario": s})
-                continue
-            note = note2
+            n_real_fail += 1
+            ph = (s.get("crash") or ("sut:" + s["sut"])).split(":")[0]
+            ctx.log(f"scenario {s['name']}: {note}: HANG; remaining real scenarios are aborted")
+            ctx.fail(f"hang:{ph}", f"master/worker run did not return ({note}; healthy runs of this scenario take 2-100 s)",
+                     {"kind": "real", "scenario": s})
+            continue
+        if note.startswith("late"):
+            ctx.log(f"scenario {s['name']}: returned {note} (machine load)")
         if log is None:
             ctx.broken("driver:" + s["name"], "the crash-injection driver failed", {"scenario": s, "detail": note})
             continue
@@ -508,7 +564,8 @@ def run(ctx: vlib.Ctx):
         case = real_to_case(s, log)
         real_cases.append(c_case(case))
         real_meta.append((s, log, case))
-    pool.shutdown()
+    if n_skipped:
+        ctx.notes.append(f"{n_skipped} real scenarios aborted after a confirmed hang")
     if real_meta:
         ctx.sample({"real": {"scenario": real_meta[0][0], "log": {k: v for k, v in real_meta[0][1].items() if k != "phases"}}})
     badr = ctx.run_cases("C33_real", "From Verif Require Import Models.C33.", "C33.case", "C33.check_case", real_cases)
@@ -551,7 +608,7 @@ def replay(ctx, path):
         print("model agrees:", ctx.coq_eval("From Verif Require Import Models.C33.", "C33.check_case " + c_case(o)))
         return 0
     s = d["scenario"]
-    log, note = run_real(s, ctx.mkscratch())
+    log, note = run_real(s, ctx.mkscratch() / "replay")
     print("scenario:", s)
     print("run:", log, note)
     if log:
